@@ -39,6 +39,7 @@ pub fn run_scenario<F>(
     let mut completed: Option<ExploreStats> = None;
     let mut last: Option<ExploreStats> = None;
     let t0 = std::time::Instant::now();
+    let sample_taken = std::sync::atomic::AtomicBool::new(false);
     for b in &plan.bounds {
         let remaining = plan.time_budget_s - t0.elapsed().as_secs_f64();
         if remaining <= 0.0 && completed.is_some() {
@@ -52,7 +53,6 @@ pub fn run_scenario<F>(
         };
         let seen: Mutex<std::collections::BTreeSet<(String, std::collections::BTreeMap<String, String>)>> =
             Mutex::new(Default::default());
-        let sample_taken = std::sync::atomic::AtomicBool::new(false);
         let stats = explore(&cfg, &f, |trace, res| {
             report.eval(1);
             if res.capped {
